@@ -67,8 +67,19 @@ def draw_cfg(d, flavours=FLAVOURS, allow_ci=False, **extra):
     return cfg
 
 
-def _variant(d, path):
-    return "/".join(c.upper() if c and d.chance(1, 4) else c for c in path.split("/"))
+def _variant(d, path, world=None):
+    """Arbitrary-case spelling of an existing path.  Only components that name an object which is settled and has not
+    been touched in this window are re-spelled (open finding KF-46c: a folder made or moved in the same window and then
+    spelled in another case as the parent of a new name is never matched)."""
+    out, prefix = [], ""
+    for c in path.split("/"):
+        if not c:
+            out.append(c)
+            continue
+        prefix += "/" + c
+        vary = world is None or world.settled_untouched(prefix)
+        out.append(c.upper() if vary and d.chance(1, 4) else c)
+    return "/".join(out)
 
 
 def spelled(d, world, c):
@@ -79,11 +90,11 @@ def spelled(d, world, c):
     op = c[0]
     if op in ("create", "mkdir"):
         par, _, leaf = c[1].rpartition("/")
-        return [op, _variant(d, par) + "/" + leaf] + list(c[2:])
+        return [op, _variant(d, par, world) + "/" + leaf] + list(c[2:])
     if op == "rename":
         par, _, leaf = c[2].rpartition("/")
-        return [op, _variant(d, c[1]), _variant(d, par) + "/" + leaf]
-    return [op, _variant(d, c[1])] + list(c[2:])
+        return [op, _variant(d, c[1], world), _variant(d, par, world) + "/" + leaf]
+    return [op, _variant(d, c[1], world)] + list(c[2:])
 
 
 def lower_op(cfg, op):
@@ -109,7 +120,7 @@ def emit_user_op(d, world, acts, side, kinds=OP_KINDS, sizes=False):
         if files:
             f = d.choice(files)
             par, _, leaf = f.rpartition("/")
-            acts.append(["u", side, "rename", _variant(d, f), _variant(d, par) + "/" + leaf.upper()])
+            acts.append(["u", side, "rename", _variant(d, f, world), _variant(d, par, world) + "/" + leaf.upper()])
             world.touch(side, f)
             world.recent = (getattr(world, "recent", []) + [f])[-3:]
             return ("case_rename", f)
